@@ -8,6 +8,7 @@ shrinks the data heap or leaves a closed state unclosed. Proved parts: the alloc
 literal (`heap_monotone_partial`) and every builtin (`builtin_never_shrinks_heap`).
 -/
 import ZygoVerif.Proofs.AliasFresh
+import ZygoVerif.Generated.EvalCallRet
 namespace ZygoVerif.C02Alias
 open ZygoVerif.Core ZygoVerif.VM ZygoVerif.Alias
 
@@ -93,5 +94,36 @@ example : constLit [.int 0, .int 0] := by
   intro e he
   simp at he
   exact ⟨0, he⟩
+
+/-! ## T1: `EvalCallExpression` never hands a mutable operand back as its own value
+
+`Generated/EvalCallRet.lean` is regenerated from zygo/environment.go on every run (extract/ex_evalcallret.go): every
+`return` of `Zlisp.EvalCallExpression` with the kind of its first result; kind `arg` = the operand expression itself,
+unchanged, with the Go types it can have at that point. An operand is evaluated by compiling and running it; returning
+the parse-tree object is right only for self-evaluating IMMUTABLE kinds. -/
+
+/-- the kinds of parse-tree objects that are immutable and evaluate to themselves -/
+def immutableKinds : List String :=
+  ["*SexpInt", "*SexpUint64", "*SexpFloat", "*SexpChar", "*SexpStr", "*SexpBool", "*SexpSentinel"]
+
+/-- a `return` is acceptable: not the argument itself, or the argument under a readable guard of immutable kinds only -/
+def retOk (r : String × List String) : Bool :=
+  r.1 != "arg" || (!r.2.isEmpty && r.2.all immutableKinds.contains)
+
+/-- over the WHOLE regenerated table -/
+theorem evalCallExpression_returns_argument_only_if_immutable :
+    Generated.EvalCallRet.returns.all retOk = true := by decide
+
+/-- the table is the function's: it has the lookup return and the Run return -/
+theorem evalCallExpression_table_shape :
+    Generated.EvalCallRet.returns.any (fun r => r.1 == "var:val") = true
+      ∧ Generated.EvalCallRet.returns.any (fun r => r.1 == "var:res") = true := by decide
+
+/-- the predicate is not vacuous: scalars pass, the table of the seeded change (array literals among the kinds
+handed back) and an unguarded return of the argument do not -/
+example : retOk ("arg", ["*SexpInt", "*SexpStr"]) = true := by decide
+theorem seeded_fast_path_table_counterexample :
+    retOk ("arg", ["*SexpInt", "*SexpUint64", "*SexpFloat", "*SexpChar", "*SexpStr", "*SexpBool", "*SexpArray"]) = false := by decide
+example : retOk ("arg", ["any"]) = false := by decide
 
 end ZygoVerif.C02Alias
